@@ -9,11 +9,12 @@ for f in $(find coq -name '*.v' -not -path 'coq/Gen/*'); do
   python3 tools/axiom_scan.py "$f" || { echo "setup: forbidden declaration in $f"; exit 1; }
 done
 mkdir -p work evidence replays coq/Gen
-/venv/bin/python -m harness.regen
+/venv/bin/python -m harness.regen || echo "setup: a translator refused (the affected check will report it)"
 cd coq
 find . -name '*.vo' -delete -o -name '*.glob' -delete -o -name '*.vok' -delete -o -name '*.vos' -delete -o -name '.*.aux' -delete
 ls Base/*.v Eql/*.v Orm/*.v Onto/*.v Diagram/*.v Json/*.v Gen/*.v Props/*.v 2>/dev/null | sort > .files
 ( echo "-Q . Krrood"; cat .files ) > _CoqProject
 coq_makefile -f _CoqProject -o Makefile.coq
-timeout 3000 make -f Makefile.coq -j16
+rm -f .Makefile.coq.d
+timeout 3000 make -k -f Makefile.coq -j16 || echo "setup: some Coq targets failed to build (the affected checks will report it)"
 echo "setup: ok"
